@@ -472,6 +472,26 @@ func runCheckGroups(tier string, seed int64) {
 			checkGroup(vs, lang, "unknownword")
 		}
 	}
+	// letters whose case mapping and compatibility decomposition do not commute (capital dotted I, letter-like and
+	// mathematical capitals, full-width capitals, title-case digraphs) in place of a plain letter of a valid sentence,
+	// and whole sentences in capitals: whatever the verdict, it is the same for every spelling
+	caseRepl := []struct{ base, with string }{{"i", "\u0130"}, {"i", "\u2110"}, {"c", "\u2102"}, {"h", "\u210d"}, {"n", "\u2115"}, {"r", "\u211d"},
+		{"z", "\u2124"}, {"a", "\U0001d400"}, {"e", "\uff25"}, {"s", "\u017f"}, {"k", "\u212a"}, {"a", "\u00c5"}, {"o", "\u2134"}}
+	for _, lang := range []int{2, 3, 4, 7, 8, 9} {
+		cs := coverSentences(lang, r)
+		for k, cr := range caseRepl {
+			if tier == "quick" && (k+lang)%3 != int(seed%3) {
+				continue
+			}
+			base := sentence(cs[r.intn(len(cs))], lang, " ")
+			if i := strings.Index(base, cr.base); i >= 0 {
+				one := base[:i] + cr.with + base[i+len(cr.base):]
+				checkGroup(spellings(one, false), lang, "casecompat")
+				all := strings.ReplaceAll(strings.ToUpper(base), strings.ToUpper(cr.base), cr.with)
+				checkGroup(spellings(all, false), lang, "casecompat")
+			}
+		}
+	}
 	// redundant separators (doubled, leading, trailing) in several spellings: not canonical, but still equivalent
 	for _, lang := range all10 {
 		cs := coverSentences(lang, r)
